@@ -126,7 +126,7 @@ for t in TERMS:
 
 # ---------------------------------------------------------------- (2) the JSON example grammar
 from insights.parsr.examples import json_parser
-ATOMS = ["1", "-2", "1.5", "\"\"", "\"a\"", "\"a b\"", "true", "false", "null"]
+ATOMS = ["1", "-2", "1.5", "\"\"", "\"a\"", "\"a b\"", "true", "false", "null", "0", "9007199254740993", "18446744073709551615", "-9007199254740993", "0.5"]
 docs = list(ATOMS)
 docs += ["[]", "{}", "[ ]", "{ }"] + ["[%s]" % a for a in ATOMS] + ["[%s, %s]" % (a, b) for a, b in itertools.product(ATOMS[:5], repeat=2)]
 docs += ["{\"k\": %s}" % a for a in ATOMS] + ["{\"k\": %s, \"j\": %s}" % (a, b) for a, b in itertools.product(ATOMS[:4], repeat=2)]
